@@ -319,6 +319,12 @@ func MaterialiseAt(dir string, files []GenFile) error {
 			}
 			continue
 		}
+		if f.Special == "fifo" {
+			if err := syscall.Mkfifo(p, 0o644); err != nil {
+				return err
+			}
+			continue
+		}
 		if err := os.WriteFile(p, f.Data, 0o644); err != nil {
 			return err
 		}
@@ -347,6 +353,12 @@ func Materialise(files []GenFile) error {
 		}
 		if strings.HasSuffix(f.Path, "/") {
 			if err := os.MkdirAll(p, 0o755); err != nil {
+				return err
+			}
+			continue
+		}
+		if f.Special == "fifo" {
+			if err := syscall.Mkfifo(p, 0o644); err != nil {
 				return err
 			}
 			continue
